@@ -16,16 +16,25 @@ from concurrent.futures import ThreadPoolExecutor
 import vlib
 
 MANIFEST = dict(
-    level=("proof", "Twenty-one Coq theorems.  Eleven over an executable model of munged's start-up/shutdown program (file "
+    level=("proof", "Twenty-three Coq theorems.  Thirteen over an executable model of munged's start-up/shutdown program (file "
            "system of the lock/socket/pid/seed names, fcntl lock owners, listeners; any number of processes, any "
            "interleaving, SIGKILL enabled in every state): single lock holder, only the holder mutates the names, a "
            "loser exits at F_SETLK leaving everything untouched, the serving daemon is undisturbed, the holder "
            "always completes, a fresh start serves after any history that ends with no daemon running (kill at "
-           "every point of start-up, service, shutdown), clean-stop postcondition; finding F-C15-unlink as a "
+           "every point of start-up, service, shutdown: every file-system/socket system call is a step of its own, so the "
+           "states 'pid file empty' and 'seed file empty' left by a kill between open and write are start states), "
+           "clean-stop postcondition with a NEW seed file (fresh inode, complete, written by the stopping process: the "
+           "file carries the generation that wrote it) and seed renewed at every stop of every reachable state; that "
+           "random.c's seed reader returns on empty/short/complete files and that its writer unlinks, creates and renews "
+           "are regenerated facts (probe runs the real functions under alarm()); finding F-C15-unlink as a "
            "refutation with witness.  Tied to the code on every run: the model's program must equal the abstracted "
            "strace of the rebuilt daemon (start, stop, losing start), lock.c's kernel requests are regenerated as "
            "facts, and the theorems' conclusions are checked live on racing starts, late starts, clean stop and "
-           "SIGKILL injection at each name-touching syscall.  Ten over StartPathModel, the same program with every name "
+           "SIGKILL injection on entering every file-system/socket syscall of start-up and shutdown (the write() into the "
+           "pid and the seed file included), each followed by a fresh start that must serve within 20 s (else: hang, "
+           "with the kill point as failing input) and by that daemon's clean stop; three start/serve/stop cycles on one "
+           "set of paths with the seed's inode/mtime/sha256 compared cycle to cycle; starts on pre-made seed files of "
+           "0, 1, seed_bytes-1, seed_bytes, seed_bytes+1 bytes.  Ten over StartPathModel, the same program with every name "
            "a byte string computed as the source computes it (strlcpy into sun_path with the size and the length test "
            "translated from sock_create's text, strdupf's buffer limit for the lock name, sizes regenerated), file system "
            "keyed by byte strings, one configuration per process: for EVERY socket path the start is refused without "
@@ -39,7 +48,8 @@ MANIFEST = dict(
     note="Trusted: Coq kernel+vm_compute, start_probe.c (interposed lock.c), the text translator of sock_create's "
          "strlcpy/length test (tools/facts/start.py), extraction, strace and the abstraction "
          "function in c15.py; the C code is modelled at system-call granularity and tied by trace comparison and "
-         "live tests, not verified.  open+write+close of the pid/seed file are one model step.  Clean stops "
+         "live tests, not verified.  close() of the pid/seed descriptor shares the kill point of the preceding write; "
+         "pid/seed writes go through the name in the model; the reads of the old seed are one step.  Clean stops "
          "overlapping starts are outside the positive theorems (F-C15-unlink).",
     technique="Coq LTS invariants (induction over schedules, arbitrary process count) + fact probe + strace "
               "trace-equivalence with the extracted program + live race / crash-injection tests")
@@ -48,6 +58,7 @@ FINDING_KEY = "F-C15-unlink: clean stop between another start's open(lock) and F
 TRACE = "trace=%file,bind,listen,fcntl,close,unlink,unlinkat,openat,socket,rename,write"
 INJECT_SET = "openat,unlink,bind,listen,fcntl,close,socket"
 PHASE = {"up": "start-up", "down": "shutdown", "serve": "service"}
+RESTART_BOUND = 20          # seconds a fresh start may take to serve or to exit; beyond it it is a hang
 
 
 # ---------------------------------------------------------------------------------------------------
@@ -588,10 +599,11 @@ def calibrate(ctx, exe):
     """one life under strace with the injectable syscall set.  strace's inject `when=K` counts per syscall and
     per tracee, so a kill point is (syscall, K-th invocation by the main process).  Returns the kill points
     spanning start-up (from the open of the lock file to one call past the pid-file write) and shutdown (from
-    the unlink of the socket to one call past the unlink of the pid file)."""
+    the unlink of the socket to one call past the unlink of the pid file), the write() into the pid file and the
+    write() into the seed file included."""
     D = Dir(ctx, "cal")
     out = os.path.join(D.d, "tr")
-    p = popen(D, ["strace", "-f", "-o", out, "-e", "trace=" + INJECT_SET] + D.argv(exe))
+    p = popen(D, ["strace", "-f", "-y", "-o", out, "-e", "trace=" + INJECT_SET + ",write"] + D.argv(exe))
     try:
         if not wait_serving(D):
             return None
@@ -602,6 +614,7 @@ def calibrate(ctx, exe):
         main = int(lines[0].split()[0])
         calls = []          # (phase, syscall, ordinal, on_name)
         ords = {}
+        nwrite = 0
         phase = "up"
         for l in lines:
             if not l.startswith("%d " % main):
@@ -613,6 +626,14 @@ def calibrate(ctx, exe):
             if not m:
                 continue
             sc = m.group(1)
+            if sc == "write":
+                # the writes that fill the pid and the seed file: killed on entering them, the file is left empty.
+                # They are counted among the writes to these two files only (strace -P <pid> -P <seed> at kill time),
+                # as the number of log writes before them is not fixed
+                if re.match(r"^\d+\s+write\(\d+<(%s|%s)>" % (re.escape(D.pid), re.escape(D.seed)), l):
+                    nwrite += 1
+                    calls.append((phase, "write", nwrite, True))
+                continue
             ords[sc] = ords.get(sc, 0) + 1
             onname = any(p_ in l for p_ in (D.lock, D.sock, D.pid, D.seed)) and "O_RDONLY" not in l
             calls.append((phase, sc, ords[sc], onname or sc in ("listen", "fcntl")))
@@ -643,7 +664,10 @@ def scenario_crash(ctx, exe, spec):
             os.kill(a.pid, signal.SIGKILL)
             a.wait()
         else:
-            a = popen(D, ["strace", "-f", "-o", "/dev/null", "-e", "trace=" + spec["sc"], "-e",
+            only = []
+            if spec["sc"] == "write":
+                only = ["-P", D.pid, "-P", D.seed]
+            a = popen(D, ["strace", "-f", "-o", "/dev/null"] + only + ["-e", "trace=" + spec["sc"], "-e",
                           "inject=%s:signal=KILL:when=%d" % (spec["sc"], spec["n"])] + D.argv(exe))
             reached = wait_for(lambda: a.poll() is not None or (os.path.exists(D.pid) and canary(D.sock) is None), 6.0)
             if a.poll() is None:
@@ -660,22 +684,50 @@ def scenario_crash(ctx, exe, spec):
                     a.kill()
                     a.wait()
         D.killall()
-        left = {n: (v is not None) for n, v in D.snapshot().items() if n in ("lock", "sock", "pid", "seed")}
-        # plain restart without --force
+        left = {}
+        for n_, p_ in D.names().items():
+            try:
+                st_ = os.lstat(p_)
+                left[n_] = "socket" if n_ == "sock" else "%d bytes" % st_.st_size
+            except OSError:
+                pass
+        where = "SIGKILL on entering %s #%s of %s" % (spec.get("sc"), spec.get("n"), PHASE[spec["phase"]]) \
+            if spec.get("sc") else "SIGKILL during service"
+        # plain restart without --force: must come up and serve, or at least exit, within the bound
         b = popen(D, D.argv(exe, foreground=False))
         try:
-            rc = b.wait(timeout=10)
+            rc = b.wait(timeout=RESTART_BOUND)
         except subprocess.TimeoutExpired:
             b.kill()
             rc = "timeout"
-        if rc != 0:
-            fails.append("after SIGKILL on entering %s #%s of %s (files left: %s) a start without --force failed "
-                         "(exit %s): %s" % (spec.get("sc"), spec.get("n"), PHASE[spec["phase"]], left, rc, tail(D.log, 300)))
+        if rc == "timeout":
+            spinning = [q for q in D.procs()]
+            fails.append("after %s (files left: %s) a fresh start without --force neither serves nor exits within %d s "
+                         "(hang; munged processes still running: %s; lock/socket/pid present: %s)"
+                         % (where, left, RESTART_BOUND, spinning,
+                            [n_ for n_ in ("lock", "sock", "pid") if os.path.lexists(D.names()[n_])]))
+        elif rc != 0:
+            fails.append("after %s (files left: %s) a start without --force failed "
+                         "(exit %s): %s" % (where, left, rc, tail(D.log, 300)))
         else:
             wait_serving(D, 3.0)
-            bad, _, _ = check_serving_state(D, "restart after SIGKILL on entering %s #%s of %s"
-                                            % (spec.get("sc"), spec.get("n"), PHASE[spec["phase"]]))
+            bad, _, ps = check_serving_state(D, "restart after %s (files left: %s)" % (where, left))
             fails += bad
+            # ... and that daemon's own clean stop leaves what a clean stop must leave
+            if not bad and spec.get("then_stop", True):
+                for q in ps:
+                    os.kill(q, signal.SIGTERM)
+                if not wait_for(lambda: not D.procs(), 20.0):
+                    fails.append("restart after %s: the daemon did not exit within 20 s of SIGTERM" % where)
+                else:
+                    for n_ in ("sock", "lock", "pid"):
+                        if os.path.lexists(D.names()[n_]):
+                            fails.append("restart after %s, then clean stop: the %s file still exists" % (where, n_))
+                    try:
+                        if os.path.getsize(D.seed) == 0:
+                            fails.append("restart after %s, then clean stop: the seed file is empty" % where)
+                    except OSError:
+                        fails.append("restart after %s, then clean stop: there is no seed file" % where)
         return fails, {"left": left}
     finally:
         D.remove()
@@ -1090,6 +1142,111 @@ def scenario_pathlen(ctx, exe, oracle, spec):
 
 
 # ---------------------------------------------------------------------------------------------------
+# (e) the seed file: renewed by every clean stop; any seed file a kill can leave does not keep a start from serving
+# ---------------------------------------------------------------------------------------------------
+def seed_id(path):
+    """(inode, mtime_ns, size, sha256) of the seed file, None when absent"""
+    import hashlib
+    try:
+        st_ = os.lstat(path)
+        return (st_.st_ino, st_.st_mtime_ns, st_.st_size, hashlib.sha256(open(path, "rb").read()).hexdigest())
+    except OSError:
+        return None
+
+
+def seed_bytes_fact():
+    try:
+        m = re.search(r"Definition seed_bytes : N := (\d+)\.", open(os.path.join(vlib.COQ, "gen", "GenStart.v")).read())
+        return int(m.group(1))
+    except Exception:
+        return 1024
+
+
+def start_and_serve(D, exe, what):
+    """start in the foreground; returns (proc, failure or None); a start that neither serves nor exits within
+    RESTART_BOUND is a hang"""
+    a = popen(D, D.argv(exe))
+    ok = wait_for(lambda: a.poll() is not None or (os.path.exists(D.pid) and canary(D.sock) is None), RESTART_BOUND)
+    if a.poll() is not None:
+        return a, "%s: the start exited with status %s: %s" % (what, a.poll(), tail(D.log, 300))
+    if not (os.path.exists(D.pid) and canary(D.sock) is None):
+        return a, ("%s: the start neither serves nor exits within %d s (hang; lock/socket/pid present: %s)"
+                   % (what, RESTART_BOUND, [n_ for n_ in ("lock", "sock", "pid") if os.path.lexists(D.names()[n_])]))
+    return a, None
+
+
+def stop_and_check(D, a, what, before):
+    """SIGTERM, wait, the clean-stop clause incl. 'a NEW seed file exists' (before = seed_id when the daemon was
+    started).  Returns (failures, seed_id after)"""
+    fails = []
+    os.kill(a.pid, signal.SIGTERM)
+    try:
+        rc = a.wait(timeout=20)
+    except subprocess.TimeoutExpired:
+        return ["%s: the daemon did not exit within 20 s of SIGTERM" % what], seed_id(D.seed)
+    if rc != 0:
+        fails.append("%s: the clean stop exited with status %s" % (what, rc))
+    for n_ in ("sock", "lock", "pid"):
+        if os.path.lexists(D.names()[n_]):
+            fails.append("%s: after the clean stop the %s file still exists" % (what, n_))
+    after = seed_id(D.seed)
+    if after is None:
+        fails.append("%s: after the clean stop there is no seed file" % what)
+    elif after[2] == 0:
+        fails.append("%s: after the clean stop the seed file is empty" % what)
+    elif before is not None and (after[0], after[1], after[3]) == (before[0], before[1], before[3]):
+        fails.append("%s: after the clean stop the seed file is the OLD one, not a new one: inode %d, mtime %d ns, %d bytes, "
+                     "sha256 %s... are what they were before this daemon was started" % (what, after[0], after[1], after[2], after[3][:16]))
+    return fails, after
+
+
+def scenario_cycles(ctx, exe, spec):
+    """spec: tag, cycles.  start / serve / clean stop, `cycles` times on one set of paths"""
+    D = Dir(ctx, spec["tag"])
+    fails, ids = [], []
+    try:
+        prev = None
+        for c in range(1, spec["cycles"] + 1):
+            what = "start/serve/stop cycle %d of %d on one set of paths" % (c, spec["cycles"])
+            a, err = start_and_serve(D, exe, what)
+            if err:
+                fails.append(err)
+                break
+            f, prev2 = stop_and_check(D, a, what, prev)
+            fails += f
+            ids.append(prev2)
+            if prev2 is not None and prev2 in ids[:-1]:
+                fails.append("%s: the seed file equals the one of an earlier cycle" % what)
+            prev = prev2
+            if fails:
+                break
+        return fails, {"seed_after_each_cycle": [(i[0], i[2], i[3][:12]) if i else None for i in ids]}
+    finally:
+        D.remove()
+
+
+def scenario_seedstate(ctx, exe, spec):
+    """spec: tag, size.  A seed file of `size` bytes (mode 0600) is in place — size 0 is what SIGKILL between
+    open(seed, O_CREAT|O_TRUNC) and write() of the shutdown leaves; a fresh start must serve within the bound and its
+    clean stop must leave a new, complete seed"""
+    D = Dir(ctx, spec["tag"])
+    try:
+        with open(D.seed, "wb") as f:
+            f.write(os.urandom(spec["size"]))
+        os.chmod(D.seed, 0o600)
+        before = seed_id(D.seed)
+        what = "fresh start on a seed file of %d bytes%s" % (
+            spec["size"], " (as left by SIGKILL between open(seed) and write(seed) of a shutdown)" if spec["size"] == 0 else "")
+        a, err = start_and_serve(D, exe, what)
+        if err:
+            return [err], {}
+        f, after = stop_and_check(D, a, what, before)
+        return f, {"seed_before": before[2], "seed_after": after[2] if after else None}
+    finally:
+        D.remove()
+
+
+# ---------------------------------------------------------------------------------------------------
 # finding F-C15-unlink
 # ---------------------------------------------------------------------------------------------------
 def scenario_overlap(ctx, exe, tag):
@@ -1344,7 +1501,9 @@ def run(ctx):
                        "correspondence: abstracted strace of the rebuilt daemon (start+stop, losing start) == model "
                        "program; live evaluations = racing-start scenarios (k=2..8, barrier, random strace delays on "
                        "fcntl/unlink/bind/openat), late starts, clean stop + restart, SIGKILL injected at each "
-                       "name-touching syscall of start-up/shutdown (stride sample in quick) + restart; socket paths of "
+                       "file-system/socket syscall of start-up/shutdown (write() into the pid and the seed file included: empty "
+                       "files left) + restart within a bound + that daemon's clean stop; >= 3 start/serve/stop cycles on one "
+                       "set of paths (seed renewed every cycle); starts on pre-made empty/short/complete seed files; socket paths of "
                        "sizeof(sun_path)-2..+1 bytes (thorough: +-4, random, past lock.c's buffer): names at every site "
                        "(strace) == StartPathModel.cprog, /proc/net/unix and directory after start, after a start on a "
                        "proper prefix, after clean stops; model "
@@ -1510,10 +1669,6 @@ def _run_live(ctx, exe, oracle, concrete, corr):
         else:
             ctx.cov["crash_kill_points"] = {k: ["%s#%d" % x for x in v] for k, v in cal.items()}
             up, down = cal["up"], cal["down"]
-            if not ctx.thorough:
-                off = rng.randrange(2)
-                up = up[off::2]
-                down = down[off::2]
             for sc, n in up:
                 cspecs.append({"tag": "cu-%s%d" % (sc, n), "phase": "up", "sc": sc, "n": n})
             for sc, n in down:
@@ -1526,7 +1681,7 @@ def _run_live(ctx, exe, oracle, concrete, corr):
         for s, (fails, fct) in res:
             ctx.count(("crash", s["phase"], s["sc"], s["n"]))
             dist["crash_" + s["phase"]] = dist.get("crash_" + s["phase"], 0) + 1
-            lefts["%s:%s#%s" % (s["phase"], s["sc"], s["n"])] = ",".join(n for n, v in sorted(fct.get("left", {}).items()) if v)
+            lefts["%s:%s#%s" % (s["phase"], s["sc"], s["n"])] = ",".join("%s=%s" % (n, v) for n, v in sorted(fct.get("left", {}).items()))
             if fails:
                 sp = {k: v for k, v in s.items() if k != "tag"}
                 concrete.append((fails[0], {"scenario": "crash", "spec": sp, "all_failures": fails,
@@ -1534,7 +1689,35 @@ def _run_live(ctx, exe, oracle, concrete, corr):
                                                    "(SIGTERM once serving for a shutdown point); then munged "
                                                    "(no --force) on the same paths"}))
         ctx.cov["files_left_at_kill_point"] = lefts
+        for need, what in (("0 bytes", "seed"), ("0 bytes", "pid")):
+            if replay is None and not any(("%s=%s" % (what, need)) in v for v in lefts.values()):
+                ctx.notes.append("no kill point left an empty %s file in this run" % what)
         ctx.log("crash points done: %d kill points, %d with failures" % (len(cspecs), sum(1 for _, (f, _) in res if f)))
+    # ---- (e) seed file: cycles and pre-made seed states
+    especs = []
+    if replay and replay.get("scenario") in ("cycles", "seedstate"):
+        especs = [dict(replay["spec"], tag="se0", kind=replay["scenario"])]
+    elif replay is None:
+        sb = seed_bytes_fact()
+        especs.append({"tag": "cy", "kind": "cycles", "cycles": 5 if ctx.thorough else 3})
+        for sz in ([0, 1, sb - 1, sb, sb + 1] + ([sb // 2, 4 * sb] if ctx.thorough else [])):
+            especs.append({"tag": "ss%d" % sz, "kind": "seedstate", "size": sz})
+    if especs:
+        with ThreadPoolExecutor(max_workers=6) as ex:
+            res = list(ex.map(lambda sp: (sp, (scenario_cycles if sp["kind"] == "cycles" else scenario_seedstate)(ctx, exe, sp)),
+                              especs))
+        for sp, (fails, fct) in res:
+            ctx.count((sp["kind"], sp.get("cycles"), sp.get("size")))
+            dist[sp["kind"]] = dist.get(sp["kind"], 0) + 1
+            if fails:
+                spx = {k: v for k, v in sp.items() if k not in ("tag", "kind")}
+                concrete.append((fails[0], {"scenario": sp["kind"], "spec": spx, "all_failures": fails, "facts": fct,
+                                            "how": "cycles: munged -F ...; wait for service; SIGTERM; stat + sha256 of the seed "
+                                                   "file; again on the same paths.  seedstate: head -c <size> /dev/urandom > seed; "
+                                                   "chmod 600 seed; munged -F --seed-file=seed ...; must serve within %d s"
+                                                   % RESTART_BOUND}))
+        ctx.sample({"seed": {k: v for k, v in especs[0].items() if k != "tag"}, "result": res[0][1][1]})
+        ctx.log("seed file done: %d scenarios, %d with failures" % (len(especs), sum(1 for _, (f, _) in res if f)))
     # ---- (d) socket path names: lengths around sizeof(sun_path) / the copy size / the bound of the length test
     sizes = {"sun_path": 108, "copy_size": 108, "len_bound": 108, "lock_name_max": 1023}
     if oracle:
